@@ -2,6 +2,7 @@ import Driver.Common
 import Driver.Dominance
 import Driver.Archive
 import Driver.Catchment
+import Driver.Round
 import Driver.Suppa
 import Driver.Engine
 import Driver.Config
@@ -39,6 +40,7 @@ def main (args : List String) : IO UInt32 := do
   | ["config-runs"] => Driver.run ({} : Driver.Config.St) Driver.Config.step; return 0
   | ["engine"] => Driver.run ({} : Driver.Engine.St) Driver.Engine.step; return 0
   | ["suppa"] => Driver.run ({} : Driver.Suppa.St) Driver.Suppa.step; return 0
+  | ["round"] => Driver.run () Driver.Round.step; return 0
   | ["catchment"] => Driver.run ({} : Driver.Catchment.St) Driver.Catchment.step; return 0
   | _ =>
     IO.eprintln "usage: driver <suite>"
